@@ -721,12 +721,12 @@ end steps
 /-- How a handler ends on the printed form of its statement: `m` returns `a` and stops at `sK`
 exactly — or, when the statement ends where an optional clause could follow (`peek`), at `sK`
 after a look-ahead of one token which is none of `stop` (the tokens that would open such a clause). -/
-def Returns {α : Type} (m : P α) (s : PState) (a : α) (sK : PState) (peek : Bool) (stop : List Token) : Prop :=
+def ReturnsAt {α : Type} (m : P α) (s : PState) (a : α) (sK : PState) (peek : Bool) (stop : List Token) : Prop :=
   if peek then ∀ lx s', Peeked sK lx s' → lx.tok ∉ stop → m.run s = .ok (a, s') else m.run s = .ok (a, sK)
 
-theorem Returns.exact {α : Type} {m : P α} {s : PState} {a : α} {sK : PState} {stop : List Token}
-    (h : m.run s = .ok (a, sK)) : Returns m s a sK false stop := by
-  unfold Returns; rw [if_neg (by simp)]; exact h
+theorem ReturnsAt.exact {α : Type} {m : P α} {s : PState} {a : α} {sK : PState} {stop : List Token}
+    (h : m.run s = .ok (a, sK)) : ReturnsAt m s a sK false stop := by
+  unfold ReturnsAt; rw [if_neg (by simp)]; exact h
 
 /-! ## more on identifiers -/
 
